@@ -12,6 +12,14 @@ import (
 	"time"
 )
 
+// outDir is where evidence and replay files are written (VERIF_OUT overrides; used for runs against seeded changes).
+func outDir() string {
+	if d := os.Getenv("VERIF_OUT"); d != "" {
+		return d
+	}
+	return verifDir()
+}
+
 func verifDir() string {
 	if d := os.Getenv("VERIF_DIR"); d != "" {
 		return d
@@ -74,7 +82,7 @@ func writeEvidence(ev *Evidence) {
 	if ev.Level == "" {
 		ev.Level = "model_checking"
 	}
-	dir := filepath.Join(verifDir(), "evidence")
+	dir := filepath.Join(outDir(), "evidence")
 	os.MkdirAll(dir, 0755)
 	b, _ := json.MarshalIndent(ev, "", " ")
 	if err := os.WriteFile(filepath.Join(dir, ev.PropertyID+".json"), append(b, '\n'), 0644); err != nil {
@@ -84,7 +92,7 @@ func writeEvidence(ev *Evidence) {
 }
 
 func writeReplay(prop string, body map[string]any) string {
-	dir := filepath.Join(verifDir(), "replays")
+	dir := filepath.Join(outDir(), "replays")
 	os.MkdirAll(dir, 0755)
 	b, _ := json.MarshalIndent(body, "", " ")
 	name := fmt.Sprintf("%s-%s.json", prop, shortHash(string(b))[:10])
